@@ -219,14 +219,28 @@ def run_impl(ctx, case, uni):
     # `used` is declared Iterable[HashInfo]: lists, sets, tuples and one-shot iterators / generators are all valid
     form = case.get("used_form", "list")
     used = {"list": used, "set": set(used), "tuple": tuple(used), "iter": iter(used), "generator": (h for h in used)}[form]
+    files_before = _files_below(odb.path)
+    all_before = safe_call(lambda: sorted(odb.all()))[1]
     kind, val = safe_call(lambda: gc(odb, used, cache_odb=cache, shallow=case["shallow"], dry=case["dry"]),
                           expected=(ObjectDBPermissionError, FileNotFoundError))
     after = stores.listing_of(odb.path)
+    run_impl.layout = (files_before, all_before, _files_below(odb.path), safe_call(lambda: sorted(odb.all()))[1])
     run_impl.extras = (extras_before, _extras(odb.path))
     run_impl.others = (others_before, _not_the_stores(top, odb.path) if other_path is not None else None)
     if kind == "ok":
         return {"removed": val, "store": after}, before
     return {"err": val, "store": after}, before
+
+
+def _files_below(path):
+    """every file below the store directory as its path components relative to it ('<oid>.unpacked' leftovers aside)"""
+    out = []
+    for dp, dns, fns in os.walk(path):
+        dns[:] = [d for d in dns if not d.endswith(".unpacked")]
+        rel = [] if dp == path else os.path.relpath(dp, path).split(os.sep)
+        for fn in fns:
+            out.append(rel + [fn])
+    return sorted(out)
 
 
 def _extras(path):
@@ -276,6 +290,15 @@ def check(ctx, case, uni, ans):
     ctx.corr("Status.gc~gc.gc", case, impl, model)
     ctx.corr("Status.gcLeftovers~'.unpacked' directories after gc", case, run_impl.extras[1], sorted(ans.get("unpacked", [])))
     ctx.count("outcome:" + ("ok" if "removed" in impl else impl["err"]))
+    # the directory layout: what the store lists as its objects is what the two-component paths below its root spell, and
+    # a collection leaves every other file below the root where it was
+    f_before, all_before, f_after, all_after = run_impl.layout
+    lay = ctx.driver.ask({"op": "store_layout", "files": f_before, "keep": all_after if isinstance(all_after, list) else []})
+    ctx.corr("StoreLayout.listOids~ObjectDB.all() (before gc)", case, all_before, sorted(lay.get("oids", [])) if "oids" in lay else lay)
+    if isinstance(all_after, list):
+        ctx.corr("StoreLayout.afterGc~files below the store root after gc", case, f_after, sorted(lay.get("after_gc", [])) if "after_gc" in lay else lay)
+    if any(len(f) != 2 or len(f[0]) != 2 for f in f_before):
+        ctx.count("layout:files that are no objects below the root")
     # oracle
     ex_before, ex_after = run_impl.extras
     if case.get("nest"):
